@@ -39,7 +39,7 @@ def main():
             files += sorted(glob.glob(os.path.join(REPO, f))) if "*" in f else [os.path.join(REPO, f)]
     tmp = tempfile.mkdtemp(prefix="vf_cov_")
     data = os.path.join(tmp, ".coverage")
-    env = dict(os.environ, VF_JOBS="1", VF_NO_EVIDENCE="1", VF_REPLAY_DIR=os.path.join(tmp, "replays"), COVERAGE_FILE=data)
+    env = dict(os.environ, VF_JOBS="1", VF_NO_EVIDENCE="1", VF_BUDGET_S="100000", VF_REPLAY_DIR=os.path.join(tmp, "replays"), COVERAGE_FILE=data)
     cmd = ["/venv/bin/python", "-m", "coverage", "run", "--branch", "--source", os.path.join(REPO, "src", "felupe"), "-m", "vf.run", pid, "--tier", tier, "--jobs", "1"]
     r = subprocess.run(cmd, cwd=HERE, env=env, capture_output=True, text=True)
     print((r.stdout.strip().splitlines() or [""])[-1][:200])
